@@ -12,6 +12,7 @@ type matrixEvent struct {
 	Part  []int    `json:"part"`  // partition label per accepted text (alpm pkgrel split), else 0
 	M     [][]int  `json:"m"`
 	Rej   int      `json:"rejected"`
+	RejT  []string `json:"rejtexts"`
 	Panic []string `json:"panics"`
 }
 
@@ -20,7 +21,7 @@ func init() {
 		eco := ecos[j.str("eco")]
 		texts := j.strs("texts")
 		parts := j.ints("part")
-		ev := matrixEvent{K: "matrix", Eco: eco.Name, Tag: j.str("tag"), Texts: []string{}, Part: []int{}, Panic: []string{}}
+		ev := matrixEvent{K: "matrix", Eco: eco.Name, Tag: j.str("tag"), Texts: []string{}, Part: []int{}, Panic: []string{}, RejT: []string{}}
 		var vals []any
 		for i, t := range texts {
 			v, nilv, err, pan := eco.ParseV(t)
@@ -30,6 +31,7 @@ func init() {
 			}
 			if err != nil || nilv {
 				ev.Rej++
+				ev.RejT = append(ev.RejT, t)
 				continue
 			}
 			vals = append(vals, v)
